@@ -161,15 +161,17 @@ func (mc *XMCache) newXModelCacheIterator(bucket string, startKey []byte, endKey
 	outputIter := iter
 
 	iter, _ = mc.inputsCache.Select(bucket, startKey, endKey)
-	inputIter := newStripDelIterator(iter)
+	// 读缓存里可能有不存在的key对应的空版本(Get了一个从未写过的key), 它不是有效数据
+	inputIter := newStripDelIterator(newStripEmptyIterator(iter))
 
 	backendIter, err := mc.model.Select(bucket, startKey, endKey)
 	if err != nil {
 		return nil, err
 	}
-	backendIter = newStripDelIterator(
+	// 验证阶段的backend是由读集构造的, 同样可能带有空版本
+	backendIter = newStripDelIterator(newStripEmptyIterator(
 		newRsetIterator(bucket, backendIter, mc),
-	)
+	))
 	// return newContractIterator(backendIter), nil
 
 	// 优先级顺序 outputIter -> inputIter -> backendIter
